@@ -19,6 +19,7 @@ func ruleC13(w *World, r *Report) {
 		"R13.4 dispatch: Serve hands the received F-SEID unchanged to handleDigestReport; R13.5 crash/exit obligations of the two listeners (short digests, short reads)."
 	r.Explanation += " R13.6 Notify/shouldNotify are plain calls on the goroutine that created the notifier (the limiter's Load-then-Store is not atomic)."
 	r.Explanation += " R13.2 (cont.) FAR IDs compared without narrowing; R13.7 go notifyListen on every path after the notification socket was dialled; R13.8 the limiter's entries are deleted only under a test on notificationInterval."
+	r.Explanation += " R13.9 = C02 R02.7 (SendPFCPMsg writes from a buffer private to the call); R13.10 go listenToDDNs only inside initOnce.Do; R13.11 handleDigestReport is called on the value the Range over pConns yields."
 	r.NotDecided = "'at most one per interval' as a statement about wall-clock time (time.Now/time.Since are trusted); whether the datapath produces a report (BESS/UP4 side)"
 
 	h := w.Fn(P, "pfcpiface.(*PFCPConn).handleDigestReport")
